@@ -443,11 +443,11 @@ def replay(ctx, body):
     if c['api'] == 'history':
         o = call_history(c['tree'], c['dec'], c['hist'], form=c.get('form', 0))
         bad = ctx.validate('Trace_Sync', [o])
-        print(json.dumps({'observed': o['out'], 'verdict': bad[0][1] if bad else 'explained by the specification'})[:3000])
+        print(json.dumps({'verdict': bad[0][1] if bad else 'explained by the specification', 'observed': o['out']})[:3000])
         return 1 if bad else 0
     o = call(c['api'], c['tree'], c['pol'], c['method'], c['colpol'], form=c.get('form', 0))
     bad = ctx.validate('Trace_Sync', [o])
-    print(json.dumps({'observed': o['out'], 'verdict': bad[0][1] if bad else 'explained by the specification'})[:3000])
+    print(json.dumps({'verdict': bad[0][1] if bad else 'explained by the specification', 'observed': o['out']})[:3000])
     return 1 if bad else 0
 
 
